@@ -822,6 +822,7 @@ func cmdSelftest(args []string) {
 	propID := fs.String("prop", "", "")
 	n := fs.Int("n", 200, "")
 	seed := fs.Uint64("seed", 20261003, "")
+	dump := fs.Int("dump", -1, "print the full log of this run index")
 	fs.Parse(args)
 	p := props.Get(*propID)
 	if p == nil {
@@ -840,6 +841,13 @@ func cmdSelftest(args []string) {
 			defer r.Close()
 			p.Exec(r)
 		}()
+		if i == *dump {
+			fmt.Println(r.Trace)
+			for _, l := range r.Log {
+				fmt.Println(l)
+			}
+			fmt.Println(r.Fingerprint(), r.Steps, r.Switches, r.Viol)
+		}
 		h := sha256.New()
 		fmt.Fprint(h, r.Trace)
 		for _, l := range r.Log {
